@@ -16,11 +16,11 @@ Definition clean_after (stp : state -> op -> R reply) (max : N) (h : list op) : 
 (** F4: P1 QoS2 (id 1), P2 QoS1 (id 2), PUBACK 2, P3 parked on id 1, PUBREC 1, PUBCOMP 1:
     P3 is written but not recorded — [clean] returns nothing, inflight = 0. *)
 Definition f4_history : list op :=
-  [pq Q2 1; pq Q1 2; In (PPubAck 2); pq Q1 3; In (PPubRec 1); In (PPubComp 1)].
+  [pq Q2 1; pq Q1 2; Inc (PPubAck 2); pq Q1 3; Inc (PPubRec 1); Inc (PPubComp 1)].
 
 Lemma f4_refuted :
   step_orig (match run_orig (init 2 false) (firstn 5 f4_history) with Some s => set_events s [] | None => init 2 false end)
-            (In (PPubComp 1))
+            (Inc (PPubComp 1))
   = Ok (match run_orig (init 2 false) f4_history with Some s => set_events s [EvIn (PPubComp 1); EvOut (OPublish 1)] | None => init 2 false end,
         Wrote (Some (PPublish (mkPub Q1 1 3 3))))
   /\ clean_after step_orig 2 f4_history = Some []
@@ -35,14 +35,14 @@ Proof. vm_compute. repeat split. Qed.
 (** F9: P1 QoS2 id 1, PUBREC 1, P2 id 2, PUBACK 2, then P3 is WRITTEN with id 1 while PUBREL 1
     still awaits PUBCOMP; after PUBREC 1, PUBCOMP 1 the inflight counter is 1 with nothing held. *)
 Definition f9_history : list op :=
-  [pq Q2 1; In (PPubRec 1); pq Q1 2; In (PPubAck 2)].
+  [pq Q2 1; Inc (PPubRec 1); pq Q1 2; Inc (PPubAck 2)].
 
 Lemma f9_refuted :
   (exists s s', run_orig (init 2 false) f9_history = Some s
      /\ bit (outgoing_rel s) 1 = true
      /\ step_orig s (pq Q1 3) = Ok (s', Wrote (Some (PPublish (mkPub Q1 1 3 3)))))
   /\ option_map (fun s => (inflight s, somes (outgoing_pub s), ones (outgoing_rel s)))
-       (run_orig (init 2 false) (f9_history ++ [pq Q1 3; In (PPubRec 1); In (PPubComp 1)]))
+       (run_orig (init 2 false) (f9_history ++ [pq Q1 3; Inc (PPubRec 1); Inc (PPubComp 1)]))
      = Some (1, [], []).
 Proof. split; [eexists; eexists|]; vm_compute; repeat split. Qed.
 
